@@ -366,7 +366,24 @@ func (vc *VC) frameFormula(fr *Frame, env Env, k string) string {
 	return fmt.Sprintf("(forall ((r Int)) (! (=> %s (= (select %s r) (select %s r))) :pattern ((select %s r))))", sAnd(ex...), cur, old, cur)
 }
 
+// witnessMap: ghost field declared `ghost witness`: the output of a ghost search, not part of any frame.
+func (vc *VC) witnessMap(k string) bool {
+	if !strings.HasPrefix(k, "G$") {
+		return false
+	}
+	rest := k[2:]
+	i := strings.LastIndex(rest, "$")
+	if i < 0 {
+		return false
+	}
+	g, ok := vc.p.ghosts[rest[:i]+"."+rest[i+1:]]
+	return ok && g.Witness
+}
+
 func (vc *VC) framedVar(fr *Frame, k string) bool {
+	if vc.witnessMap(k) {
+		return false
+	}
 	if strings.HasPrefix(k, "L$") || k == "alloc" || strings.HasPrefix(k, "defer$") || vc.p.lockMaps[k] {
 		return false
 	}
